@@ -170,6 +170,17 @@ CHECKS = {
             "Faults are permission faults (chmod 000) seen by an unprivileged process; exit status for file-only "
             "faults may be 0 or 1; message wording is free.",
             "DESIGN.md 4 C17"),
+    "C18": ("exploration",
+            "property-based testing (Hypothesis): generated link graphs (relative/absolute, cycles, chains, outside "
+            "targets) in a chroot jail, differential against an independent closure model over real directories; "
+            "termination by CPU-time limit",
+            "Each row is mapped to its real entry (independent resolver); the multiset of real entries must equal the "
+            "closure of the root under sub-directories and directory links, each exactly once (nothing missing, "
+            "nothing twice, nothing from outside); the run must terminate and be clean when no link is dangling or "
+            "self-referential; without the option the rows equal the plain walk.",
+            "Displayed path spelling, status with dangling/looping links and depth windows under `symlinks` are "
+            "don't-care; the jail bounds any mis-resolution.",
+            "DESIGN.md 4 C18"),
 }
 
 PENDING = {}
